@@ -53,6 +53,37 @@ func registerEnvStubs() {
 		}
 		return false
 	}
+	// files the harness registers (verifrt.EnvFile): fs.IsValidFile and os.ReadFile answer from this table
+	intrinsics[VerifrtPath+".EnvFile"] = func(fr *frame, a []value) value {
+		p, _ := a[0].(string)
+		c, _ := a[1].(string)
+		E.envFiles[p] = c
+		E.envFS[p] = true
+		return nil
+	}
+	intrinsics["compiler/internal/utils/fs.IsValidFile"] = func(fr *frame, a []value) value {
+		p, ok := a[0].(string)
+		if !ok {
+			panic(pathUnsupported{"fs.IsValidFile on a symbolic path"})
+		}
+		_, have := E.envFiles[p]
+		return have
+	}
+	intrinsics["os.ReadFile"] = func(fr *frame, a []value) value {
+		p, ok := a[0].(string)
+		if !ok {
+			panic(pathUnsupported{"os.ReadFile on a symbolic path"})
+		}
+		c, have := E.envFiles[p]
+		if !have {
+			return tuple{[]value(nil), mkError(fr, "open "+p+": no such file (environment stub)")}
+		}
+		out := make([]value, len(c))
+		for i := 0; i < len(c); i++ {
+			out[i] = c[i]
+		}
+		return tuple{out, iface{}}
+	}
 	intrinsics["os.TempDir"] = func(fr *frame, a []value) value { return "/zz/tmp" }
 	intrinsics["os.Executable"] = func(fr *frame, a []value) value { return tuple{"/zz/bin/ferret", iface{}} }
 	intrinsics["os.Stat"] = func(fr *frame, a []value) value { return tuple{iface{}, mkError(fr, "stat: no such file (environment stub)")} }
